@@ -27,12 +27,15 @@ def canon(d):
 
 from common import CORPUS
 from gen import sdl
+from corr import C11_extend
 
 PROPERTY = "C11"
 RULE = ("generated type-system documents: declared content (6 kinds, wrappers, defaults of every input kind, descriptions, "
         "deprecations, custom directives + applications, schema block / default roots, recursive inputs) split arbitrarily over "
         "extend blocks; ALL definition orders for documents of <=4 definitions, sampled orders otherwise; ignore_extensions on/off; "
-        "additional_types; 38 labelled single-defect invalid documents. non-trivial = distinct document text that was built "
+        "additional_types; 38 labelled single-defect invalid documents; the public extend_schema(build(A), B, strict): generated B (new types, "
+        "extensions of old and new types in every order) and a deterministic block of 36 named extension documents x strict/lax (one per "
+        "branch of _collect_extensions and per rejection of the extension pass). non-trivial = distinct document text that was built "
         "(>=2 definitions) or rejected after parsing")
 ASSUMPTIONS = [
     "type registry and directive registry are compared as sets (sorted by name): the property does not state an order of schema.types",
@@ -44,6 +47,9 @@ ASSUMPTIONS = [
     "'the specification's type-system rules' are those of the June 2018 edition, whose grammar the parser implements (no `repeatable`, no "
     "`interface … implements`, no schema description): the October 2021 rule against input objects that reference themselves through "
     "non-null fields only (`input A { a: A! }`, hunt3 C11/5) is not one of them and such documents are expected to build",
+    "public extend_schema: the roots of the schema being extended are KEPT and only `extend schema` adds roots — a new type named Mutation / "
+    "Subscription does not become a root (Lean: extend_roots_not_rederived); the generated extension documents use other names, and the "
+    "expected content of extend_schema(build(A), B) is the content declared by A followed by B",
     "documents are given as text (str / bytes) or as the parser's output; hand-built Document objects that the grammar cannot produce "
     "(`on FOO`, `Int!!`, an operation kind other than query / mutation / subscription; hunt3 C11/4) are measured every run and recorded as a "
     "known finding",
@@ -51,8 +57,12 @@ ASSUMPTIONS = [
 TRUSTED = [
     "gen/sdl.py: ref_coerce (reference literal coercion), declared (specification fold in Python), doc_json (AST -> wire format)",
     "float()/repr() of float literals are computed in Python and shipped with the literal (`f`)",
+    "public extend_schema: the live types of the schema being extended are represented in the model by the merged SDL definitions they "
+    "were built from (schemas assembled from Python objects are outside the model); `_collect_extensions` is also read directly "
+    "(private function) to compare WHAT it keeps with the model's collectExtensions",
 ]
-EXPLANATION = "model = Sdl.lean (collect, build, extend, type map closure); spec = Spec/SdlSpec.lean (Declared, SdlValid)"
+EXPLANATION = ("model = Sdl.lean (collect, build, extend, type map closure) + SdlExtend.lean (public extend_schema: _collect_extensions "
+               "strict/lax, new definitions, roots kept); spec = Spec/SdlSpec.lean (Declared, SdlValid)")
 
 
 # ---------------------------------------------------------------------------
@@ -437,14 +447,19 @@ def extension_doc(rng, D):
     return B, both
 
 
+EXT_CASES = []      # generated extend_schema cases for the model of the public extend_schema (corr/C11_extend.py)
+
+
 def run_extend(ctx, batch):
+    del EXT_CASES[:]
     n = ctx.n(40, 300)
     for k in range(n):
         if ctx.time_left() < 14:
             ctx.notes.append("extend_schema cases cut short at %d" % k)
             break
         D, items = sdl.gen_doc(ctx.rng, size=ctx.rng.choice([1, 2]), p_ext=ctx.rng.choice([0.0, 0.4]))
-        a_text = sdl.render(sdl.permute(ctx.rng, items))
+        a_items = sdl.permute(ctx.rng, items)
+        a_text = sdl.render(a_items)
         B, both = extension_doc(ctx.rng, D)
         try:
             expected = sdl.expected_dump(both)
@@ -467,6 +482,8 @@ def run_extend(ctx, batch):
             detail = {"base_sdl": a_text, "ext_sdl": b_text, "strict": strict, "expected": expected}
             if real[0] == "base":
                 break
+            EXT_CASES.append({"real": real, "detail": {"base_sdl": a_text, "ext_sdl": b_text, "strict": strict},
+                              "req": {"op": "extend", "doc": a_items, "ext": order, "strict": strict}})
             if real[0] == "ok":
                 batch.add(a_text + "\n" + b_text, sdl.items_of_content(D) + order, real, {})
                 if canon(real[1]) != canon(expected):
@@ -498,6 +515,7 @@ def run_extend(ctx, batch):
             ctx.count()
             ctx.stat("extend_schema:duplicate-definition:" + real[0])
             detail = {"base_sdl": a_text, "ext_sdl": b_text, "strict": strict, "duplicated": victim["name"]}
+            EXT_CASES.append({"real": real, "detail": dict(detail), "req": {"op": "extend", "doc": a_items, "ext": order, "strict": strict}})
             if real[0] == "ok":
                 ctx.fail("extend-schema:invalid-accepted:duplicate-%s-definition" % victim["k"],
                          "extend_schema accepts a document that defines %s twice (the last definition wins)" % victim["name"], detail)
@@ -921,6 +939,7 @@ def run(ctx):
     run_corpus(ctx, batch)
     run_generated(ctx, batch)
     run_extend(ctx, batch)
+    probes = C11_extend.run_probes(ctx, real_extend, sdl.doc_json, canon, sort_dump, diff_path)
     run_invalid(ctx, batch)
     run_validation_rules(ctx, batch)
     run_schema_directives(ctx)
@@ -928,8 +947,10 @@ def run(ctx):
     run_hand_built(ctx)
     run_source_forms(ctx)
     run_long_chains(ctx)
+    C11_extend.run_lax_stream(ctx, sdl, real_extend, extension_doc, canon, diff_path, EXT_CASES)    # last consumer of ctx.rng
     run_model(ctx, batch)
     ctx.extra["documents_sent_to_model"] = len(batch.cases)
+    C11_extend.run_model(ctx, probes, EXT_CASES, canon, sort_dump, diff_path)
 
 
 def replay(ctx, data):
@@ -943,6 +964,16 @@ def replay(ctx, data):
         c2 = type(ctx)(ctx.prop, ctx.tier, ctx.seed)
         (run_special if inp.get("special") else run_schema_directives)(c2)
         return not any(f["kind"] == "property" and f["detail"].get("sdl") == inp.get("sdl") for f in c2.found)
+    if "ignored_in_lax" in inp:
+        real = real_extend(inp["base_sdl"], inp["ext_sdl"], inp.get("strict", True))
+        if inp.get("strict", True):
+            return real[0] == "rej"
+        return real[0] == "ok" and ("expected" not in inp or canon(real[1]) == canon(inp["expected"]))
+    if "probe" in inp:
+        exp = {p[0]: p for p in C11_extend.PROBES}.get(inp["probe"])
+        real = real_extend(inp["base_sdl"], inp["ext_sdl"], inp.get("strict", True))
+        want = exp[2 if inp.get("strict", True) else 3] if exp else "any"
+        return real[0] != "exc" and (want == "any" or real[0] == want)
     if "duplicated" in inp:
         return real_extend(inp["base_sdl"], inp["ext_sdl"], inp.get("strict", True))[0] == "rej"
     if "base_sdl" in inp:
